@@ -925,6 +925,20 @@ class Executor:
                     out.add((l["res"]["lid"], l["res"]["name"]))
         return out
 
+    def loop_carried(self, node, st):
+        """assigned locals plus the variables the executor rebinds when they are grown / reordered in place inside the
+        loop (see ev_MethodCall) — those only when they hold a *term*: an object keeps its identity and its effects"""
+        from .facts import walk
+        out = set(self.assigned_locals(node))
+        for x, _ in walk(node):
+            if x.get("k") == "MethodCall" and (x["name"] in self.INPLACE or x["name"] in self.GROW):
+                l = peel(x["recv"])
+                if l.get("k") == "Path" and (l.get("res") or {}).get("k") == "Local":
+                    cur = st.env.get(l["res"]["lid"])
+                    if isinstance(cur, tuple) and cur[:1] not in (("obj",), ("iter",)):
+                        out.add((l["res"]["lid"], l["res"]["name"]))
+        return out
+
     def ev_for(self, n, st):
         """for PAT in ITER { BODY }  (desugared match into_iter(ITER) { mut iter => loop { match next(&mut iter) {…} } })"""
         sc = n["scrut"]
@@ -998,7 +1012,7 @@ class Executor:
                                 outs.append((s2, o))
                     live = nxt
                 return [(s, ("val", UNIT)) for s in live] + outs, None
-        lid_names = self.assigned_locals(body) if body is not None else set()
+        lid_names = self.loop_carried(body, st) if body is not None else set()
         body_st = State(dict(st.env), [], dict(st.fields), dict(st.facts))
         for lid, name in lid_names:
             if lid in body_st.env:
@@ -1007,9 +1021,17 @@ class Executor:
         elem = ("sym", next(self.counter), "elem")
         if closure is None:
             self.match_pat(pat, self.elem_term(itv, elem), body_st)
-            res = self.ev(body, body_st)
+            self.loop_depth = getattr(self, "loop_depth", 0) + 1
+            try:
+                res = self.ev(body, body_st)
+            finally:
+                self.loop_depth -= 1
         else:
-            res = self.apply_closure(closure, (self.elem_term(itv, elem),), body_st)
+            self.loop_depth = getattr(self, "loop_depth", 0) + 1
+            try:
+                res = self.apply_closure(closure, (self.elem_term(itv, elem),), body_st)
+            finally:
+                self.loop_depth -= 1
             if kind == "try_for_each":
                 # the closure's Result decides: Err stops the traversal and becomes the value of try_for_each
                 res2 = []
@@ -1069,7 +1091,9 @@ class Executor:
                     # loop-carried variable: value before the loop, its symbol inside the body, its value at the end of
                     # each pass (an accumulation `acc = f(acc, elem)` is a fold — see as_left_fold)
                     e.setdefault("carried", {})[after] = {"name": name, "init": st.env[lid], "acc": lv_of[lid],
-                                                          "steps": [s.env.get(lid) for s, _ in finals], "every_iteration": every_iteration}
+                                                          "steps": [s.env.get(lid) for s, _ in finals], "every_iteration": every_iteration,
+                                                          "conds": [[(x["args"][0], x["args"][1]) for x in s.eff if x["k"] == "assume"] for s, _ in finals],
+                                                          "effs": [s.eff for s, _ in finals]}
                 st.env[lid] = after
         # a loop that pushes exactly one value per iteration onto a vector that was empty is a `map(..).collect()`
         if every_iteration and closure is None:
@@ -1247,7 +1271,7 @@ class Executor:
         src = n.get("src")
         body = n["body"]
         loop_id = n["id"]
-        lid_names = self.assigned_locals({"k": "Block", "block": body, "id": -1})
+        lid_names = self.loop_carried({"k": "Block", "block": body, "id": -1}, st)
         body_st = State(dict(st.env), [], dict(st.fields), dict(st.facts))
         init = {}
         lv = {}
@@ -1257,7 +1281,11 @@ class Executor:
                 init[sym] = st.env[lid]
                 lv[lid] = sym
                 body_st.env[lid] = sym
-        res = self.ev_block(body, body_st)
+        self.loop_depth = getattr(self, "loop_depth", 0) + 1
+        try:
+            res = self.ev_block(body, body_st)
+        finally:
+            self.loop_depth -= 1
         paths, exits = [], []
         for s, o in res:
             p = {"eff": s.eff, "out": o, "next": {sym: s.env.get(lid) for lid, sym in lv.items()}}
@@ -1295,7 +1323,7 @@ class Executor:
         def k(s, vs):
             it = iter(vs)
             full = tuple(next(it) if a.get("k") != "Unknown" else ("unknown", "inlined literal") for a in args)
-            return [(s, ("val", ("fmt", tuple(tpl), full)))]
+            return [(s, ("val", canon_fmt(tuple(tpl), full)))]
         return self.bind(self.ev_list(known, st), k)
 
     # -- calls -----------------------------------------------------------------------
@@ -1330,18 +1358,56 @@ class Executor:
                "retain": "retained", "retain_mut": "retained", "rotate_left": "permuted", "rotate_right": "permuted", "swap": "permuted",
                "shuffle": "permuted", "truncate": "shrunk", "drain": "shrunk", "swap_remove": "shrunk", "clear": "shrunk", "split_off": "shrunk"}
 
+    GROW = ("push", "push_back", "push_front", "extend", "append", "extend_from_slice", "push_str", "resize_with")
+
     def ev_MethodCall(self, n, st):
         cal = n.get("callee") or {}
         path = cal.get("inst") or cal.get("def") or ("?::" + n["name"])
         head = self.INPLACE.get(n["name"])
-        grow = n["name"] in ("push", "push_back", "push_front", "extend", "append", "extend_from_slice") and not (cal.get("local") or cal.get("inst_local"))
+        grow = n["name"] in self.GROW and not (cal.get("local") or cal.get("inst_local"))
         rcv = peel(n["recv"]) if (head or grow) else None
         lid = rcv["res"]["lid"] if rcv and rcv.get("k") == "Path" and (rcv.get("res") or {}).get("k") == "Local" else None
+        if grow and lid is not None and n["name"] == "resize_with" and len(n["args"]) == 2:
+            # `v.resize_with(n, f)` on an empty vector: f() called n times, the results in call order — the same
+            # sequence as `(0..n).map(|_| f()).collect()`
+            cur = st.env.get(lid)
+            empty = cur == ("app", "array", ()) or (isinstance(cur, tuple) and cur[:1] == ("obj",) and not any(
+                e["k"] == "call" and len(e["args"]) > 1 and e["args"][1] == cur and e["args"][0][1].rsplit("::", 1)[-1] not in ("with_capacity", "reserve", "len", "is_empty", "capacity")
+                for e in st.eff))
+            if empty:
+                from . import stdmodels as _sm
+
+                def kr(s, vs):
+                    rng = ("ctor", "std::ops::Range", None, (("start", lit(0)), ("end", vs[0])))
+                    outs = _sm.drive(self, "collect", ("iter", rng, "fwd", (("map", ("thunk", vs[1])),)), [], {"k": "MethodCall", "id": -n.get("id", 0) - 7, "sp": n.get("sp")}, s)
+                    res = []
+                    for s2, o in outs:
+                        if o[0] == "val":
+                            s2.env[lid] = o[1]
+                            res.append((s2, ("val", UNIT)))
+                        else:
+                            res.append((s2, o))
+                    return res
+                return self.bind(self.ev_list(n["args"], st), kr)
         if grow and lid is not None and len(n["args"]) == 1:
             rty = (self.fx.ty(rcv) or "")
             cur = st.env.get(lid)
             owned = rty.startswith(("std::vec::Vec<", "std::collections::VecDeque<", "std::collections::vec_deque::VecDeque<"))
+            if owned and n["name"] == "extend" and getattr(self, "loop_depth", 0) == 0 and isinstance(cur, tuple) and cur[:1] == ("obj",) and not any(
+                    e["k"] == "call" and len(e["args"]) > 1 and e["args"][1] == cur and e["args"][0][1].rsplit("::", 1)[-1] not in ("with_capacity", "reserve", "len", "is_empty", "capacity")
+                    for e in st.eff) and not _mentions_term([v for k9, v in st.env.items() if k9 != lid], cur):
+                # a fresh, still empty vector outside any loop: `extend` gives it exactly the extension's elements
+                cur = ("app", "array", ())
+                st.env[lid] = cur
             is_seq_term = isinstance(cur, tuple) and cur[:1] in (("var",), ("app",), ("payload",)) and not (cur[:1] == ("app",) and cur[1] in ("call",))
+            if rty == "std::string::String" and n["name"] in ("push_str", "push") and isinstance(cur, tuple) and cur[:1] in (("lit",), ("app",), ("var",), ("fmt",), ("payload",), ("sym",)):
+                # an owned String that holds a text term and is appended to: it holds the longer text from here on
+                def ks(s, vs):
+                    old = s.env.get(lid)
+                    parts = (old[2] if old[:2] == ("app", "concat_str") else (old,)) + (vs[0],)
+                    s.env[lid] = ("app", "concat_str", tuple(parts))
+                    return [(s, ("val", UNIT))]
+                return self.bind(self.ev_list(n["args"], st), ks)
             if owned and is_seq_term:
                 # an *owned* vector that holds a sequence term (a parameter, the result of a call, a concatenation) and is
                 # grown in place: from here on the variable holds the longer sequence — `concat(old, [x])`, `concat(old, ys)`
@@ -1349,9 +1415,27 @@ class Executor:
                     x = vs[0]
                     if n["name"] in ("extend", "append", "extend_from_slice"):
                         part = x[1] if (x[:1] == ("iter",) and x[2] == "fwd" and not x[3]) else x
+                        if part[:1] == ("some",):
+                            part = app("array", part[1])        # extending by an Option: its payload, if any
+                        elif part == ("none",):
+                            part = ("app", "array", ())
                         if part[:1] == ("iter",):
-                            s.env[lid] = app("grown", s.env.get(lid), part)      # adapted iterator: contents not followed
-                            return [(s, ("val", UNIT))]
+                            # an adapted iterator (`extend(xs.iter().map(f))`): what it yields, collected
+                            from . import stdmodels as _sm
+                            outs = _sm.drive(self, "collect", part, [], {"k": "MethodCall", "id": -n.get("id", 0) - 9, "sp": n.get("sp")}, s)
+                            res2 = []
+                            for s2, o in outs:
+                                if o[0] != "val":
+                                    res2.append((s2, o))
+                                    continue
+                                old2 = s2.env.get(lid)
+                                flat = []
+                                for q in (old2, o[1]):
+                                    flat.extend(q[2] if (q[:2] == ("app", "concat")) else (q,))
+                                flat = [q for q in flat if q != ("app", "array", ())]
+                                s2.env[lid] = flat[0] if len(flat) == 1 else ("app", "concat", tuple(flat))
+                                res2.append((s2, ("val", UNIT)))
+                            return res2
                     else:
                         part = app("array", x)
                     old = s.env.get(lid)
@@ -1359,7 +1443,8 @@ class Executor:
                     flat = []
                     for q in parts:
                         flat.extend(q[2] if (q[:2] == ("app", "concat")) else (q,))
-                    s.env[lid] = ("app", "concat", tuple(flat))
+                    flat = [q for q in flat if q != ("app", "array", ())] or [("app", "array", ())]
+                    s.env[lid] = flat[0] if len(flat) == 1 else ("app", "concat", tuple(flat))
                     return [(s, ("val", UNIT))]
                 res = []
                 ok = True
@@ -1591,8 +1676,53 @@ def seq_build(base, effs):
     return parts[0] if len(parts) == 1 else ("app", "concat", tuple(parts))
 
 
+def canon_fmt(tpl, args):
+    """a format template with its literal arguments written out: `("{},{},{}", t, 'A', m)` is `("{},A,{}", t, m)` — text,
+    char, integer and bool literals displayed with the default spec become part of the text; arguments are renumbered"""
+    keep = []
+    index = {}
+    pieces = []
+    for p in tpl:
+        if p[0] == "arg" and p[1] < len(args):
+            a = args[p[1]]
+            if p[2] == "Display" and p[3] in ("", None) and isinstance(a, tuple) and a[:1] == ("lit",) and isinstance(a[1], (str, int, bool)) and not isinstance(a[1], bytes):
+                text = ("true" if a[1] else "false") if isinstance(a[1], bool) else str(a[1])
+                if pieces and pieces[-1][0] == "lit":
+                    pieces[-1] = ("lit", pieces[-1][1] + text)
+                else:
+                    pieces.append(("lit", text))
+                continue
+            if p[1] not in index:
+                index[p[1]] = len(keep)
+                keep.append(a)
+            pieces.append(("arg", index[p[1]], p[2], p[3]))
+        elif p[0] == "lit" and pieces and pieces[-1][0] == "lit":
+            pieces[-1] = ("lit", pieces[-1][1] + p[1])
+        else:
+            pieces.append(p)
+    # arguments that no piece refers to (captured but unused) keep their place at the end
+    for i, a in enumerate(args):
+        if i not in index and not (isinstance(a, tuple) and a[:1] == ("lit",)):
+            keep.append(a)
+    return ("fmt", tuple(pieces), tuple(keep))
+
+
+def flatten_concat(t):
+    """concat(concat(a, b), c) = concat(a, b, c), everywhere inside t"""
+    if not isinstance(t, tuple):
+        return t
+    t = tuple(flatten_concat(x) if isinstance(x, tuple) else x for x in t)
+    if t[:2] == ("app", "concat"):
+        flat = []
+        for q in t[2]:
+            flat.extend(q[2] if (isinstance(q, tuple) and q[:2] == ("app", "concat")) else (q,))
+        return ("app", "concat", tuple(flat))
+    return t
+
+
 def resolve_built(t, effs):
     """replace every vector object inside term t by its canonical contents (vec_build) where those are known"""
+    t = flatten_concat(t)
     if isinstance(t, tuple):
         if t[:1] == ("obj",) and len(t) == 3 and t[1] == "Vec":
             b = vec_build(t, effs)
